@@ -78,9 +78,14 @@ pub fn exponent(r: &Recipe) -> i32 {
 }
 
 pub fn check_recipe(r: &Recipe, max_len: usize, stats: &mut Stats) -> Result<(), Failure> {
-    let int = hostile(r, 1, max_len);
-    let frac = if r.k[1] % 4 == 0 { Vec::new() } else { hostile(r, 2, max_len) };
-    let exp = exponent(r);
+    // "arbitrary bytes" includes valid digits: one case in eight is a valid input from the families that
+    // load the big-integer code hardest (boundaries, long tails, sparse-limb integers, maximal big integers)
+    let (int, frac, exp) = if r.sel[7] < 0x2000 {
+        let c = super::c04::case_of(r, gen::Limits { long: 2_000, huge: max_len });
+        (c.int, c.frac, c.exp)
+    } else {
+        (hostile(r, 1, max_len), if r.k[1] % 4 == 0 { Vec::new() } else { hostile(r, 2, max_len) }, exponent(r))
+    };
     let wild = int.iter().chain(frac.iter()).any(|c| !c.is_ascii_digit());
     let zero_rule = int.first() == Some(&b'0') || frac.last() == Some(&b'0');
     for fmt in [Fmt::F64, Fmt::F32] {
